@@ -110,7 +110,11 @@ class ConfigRun:
         if d[0] == "ok":
             dd = dict(d[1])
             dd["schemes"] = [getattr(x, "name", x) for x in dd.get("schemes", [])]
-            r["to_dict"] = sorted((k, repr(v)) for k, v in dd.items())
+            # type-exact for the options whose type the context knows (costs, vary_rounds, salt_size, truncate_error, default,
+            # deprecated, schemes); a handler-specific option (fshp's variant ...) read from INI text stays text -- the context
+            # cannot know its type and hands it to using(), which reads both spellings: compared by its text
+            typed = ("min_rounds", "max_rounds", "default_rounds", "rounds", "vary_rounds", "salt_size", "truncate_error", "default", "deprecated", "schemes")
+            r["to_dict"] = sorted((k, repr(v) if k.split("__")[-1] in typed else str(v)) for k, v in dd.items())
         else:
             r["to_dict"] = d[:2]
         r["to_string"] = _call(cc.to_string)[:2]
@@ -133,6 +137,21 @@ class ConfigRun:
         r["decisions"] = dec
         mode, self.ctx.rng.mode = self.ctx.rng.mode, "pinned"
         r["hash"] = [_call(cc.hash, "probe-pw", category=c, **self.ckw)[:2] for c in cats]
+        # what EVERY configured scheme would produce now (settings that never show in the export, e.g. a variant stored on a
+        # shared class, show here); only for schemes whose configured cost is affordable
+        per = []
+        for s_ in self.names:
+            rec = _call(lambda: cc.handler(s_))
+            if rec[0] != "ok":
+                per.append((s_, rec[:2]))
+                continue
+            d_ = getattr(rec[1], "default_rounds", None)
+            cap = {"bcrypt": 8, "bcrypt_sha256": 8, "django_bcrypt": 8, "ldap_bcrypt": 8, "scrypt": 6, "phpass": 12}.get(s_, 20000)
+            if isinstance(d_, int) and d_ > cap:
+                per.append((s_, "too-expensive"))
+                continue
+            per.append((s_, _call(lambda: cc.handler(s_).hash("probe-pw", **(self.ckw if s_ in self.user_schemes else {})))[:2]))
+        r["hash_per_scheme"] = per
         self.ctx.rng.mode = mode
         r["handlers"] = [_call(lambda c=c: cc.handler(None, c).name)[:2] for c in cats]
         return r
@@ -210,6 +229,21 @@ class ConfigRun:
             self.fs.put(PATH, cc.to_string().encode("utf-8"))
             r = _call(lambda: CryptContext.from_path(PATH))
             ctx.fault("restart_via_file")
+        elif form in ("load_ctx", "load_lazy", "update_ctx"):
+            # a context object as the source of load() / update(): a plain one, or a LazyCryptContext nobody has used yet
+            from passlib.context import LazyCryptContext
+
+            def via_object():
+                src = cc if form != "load_lazy" else LazyCryptContext(**cc.to_dict(resolve=True))
+                tgt = CryptContext()
+                if form == "update_ctx":
+                    tgt.update(src)
+                else:
+                    tgt.load(src)
+                return tgt
+
+            r = _call(via_object)
+            ctx.fault("restart_via_object")
         else:
             r = _call(cc.copy)
         if r[0] == "exc":
